@@ -643,3 +643,62 @@ def mode_writers_rule(run, f, rid):
             run.fail(rid, b.npath + "/mode-writers", b.loc(), "%s also changes the descriptor's mode through %s, outside the set_non_blocking/set_blocking pairing: a call that did not switch the mode itself leaves it switched" % (nm, [o.rsplit("::", 1)[-1] for o in other]))
         else:
             run.ok(rid, b.npath + "/mode-writers", "only set_non_blocking / set_blocking")
+
+
+# ------------------------------------------------------------------ C24/C08/C09: the dead coroutine's suspender is popped on every way out
+def suspender_popped_rule(run, f, rid):
+    """The coroutine's body runs between Suspender::init_current(&suspender) and clean_current().  Whatever ends the body
+    must pop: a return, an UNWIND (panic in the body) and the trap handler's redirect (the body is abandoned, nothing is
+    unwound).  Otherwise the dead coroutine's suspender stays the thread's current one: outside any coroutine
+    Suspender::current() is a dangling reference, and a coroutine that ran the dead one as a helper yields through it."""
+    run.rule(rid, "the suspender pushed for a coroutine body is popped on return, on unwind, and by the closure the trap handler redirects to", floor=2, template="T1 pairing incl. unwind exits")
+    # (a) the body wrapper: the closure below Coroutine::new that calls init_current
+    cands = [c for c in f.bodies if c.kind == "Closure" and c.npath.startswith(CO + "::new::{closure#") and any(norm(t.get("callee") or "").endswith("Suspender::init_current") for (_x, t) in c.calls())]
+    if len(cands) != 1:
+        run.fail(rid, "body/pops-on-every-exit", CO + "::new", "the closure of Coroutine::new that installs the suspender was not found (%d candidates)" % len(cands))
+    else:
+        b = inl(f, cands[0])
+        cfg = Cfg(b, unwind=True)
+        ini = [x for (x, t) in b.calls(include_cleanup=True) if norm(t.get("callee") or "").endswith("Suspender::init_current")]
+        cln = [x for (x, t) in b.calls(include_cleanup=True) if norm(t.get("callee") or "").endswith("Suspender::clean_current")]
+        # a guard: `drop(local)` where the local's type has a Drop impl that pops (the inliner splices such an impl on the
+        # normal path only; on the unwind path the drop terminator itself is the pop)
+        def pops_on_drop(ty):
+            adt = f.nadts.get(norm(ty or "")) or {}
+            d = adt.get("drop")
+            for db in f.by_npath.get(norm(d), []) if d else []:
+                if any(norm(t.get("callee") or "").endswith("Suspender::clean_current") for (_x, t) in inl(f, db).calls()):
+                    return True
+            return False
+        for blk in b.blocks:
+            t = blk["term"]
+            if t["k"] == "drop" and not t["p"]["proj"]:
+                lt = b.locals[t["p"]["l"]] if t["p"]["l"] < len(b.locals) else None
+                lt = lt.get("ty") if isinstance(lt, dict) else lt
+                if lt and pops_on_drop(lt):
+                    cln.append(blk["id"])
+        if len(ini) != 1 or not cln:
+            run.fail(rid, "body/pops-on-every-exit", b.loc(), "expected one init_current and at least one clean_current in the body wrapper (found %d / %d)" % (len(ini), len(cln)))
+        else:
+            ok_r, _w = cfg.must_pass(cfg.after(ini[0]), cln, exits=set(cfg.returns))
+            ok_u, _w2 = cfg.must_pass(cfg.after(ini[0]), cln, exits=set(cfg.resumes))
+            if ok_r and ok_u and cfg.resumes:
+                run.ok(rid, "body/pops-on-every-exit", {"clean_sites": len(cln), "unwind_exits": len(cfg.resumes)})
+            else:
+                run.fail(rid, "body/pops-on-every-exit", b.loc(), "the body wrapper can be left %s without popping its suspender: the thread's current suspender is then the dead coroutine's" % ("by unwinding (a panic in the body)" if ok_r else "by returning"))
+    # (b) the trap redirect
+    h = need(run, rid, f, CO + "::trap_handler")
+    if h is None:
+        return
+    red = [b_ for b_ in f.bodies if b_.kind == "Closure" and any(norm(t.get("callee") or "").endswith("::setup_trap_handler") and any((describe_val(p_, DefUse(p_), a) or ("",))[0] == "closure" and describe_val(p_, DefUse(p_), a)[1] == b_.npath for a in t["args"]) for p_ in f.bodies if p_.npath == norm(b_.path.rsplit("::{closure#", 1)[0]) and p_.kind != "Promoted" for (_x, t) in p_.calls())]
+    if len(red) != 1:
+        run.fail(rid, "trap-redirect/pops", h.loc(), "the closure handed to setup_trap_handler was not found (%d candidates)" % len(red))
+        return
+    rb = inl(f, red[0])
+    rcfg = Cfg(rb)
+    cln = [x for (x, t) in rb.calls() if norm(t.get("callee") or "").endswith("Suspender::clean_current")]
+    ok, _w = rcfg.must_pass([0], cln) if cln else (False, None)
+    if ok:
+        run.ok(rid, "trap-redirect/pops", "clean_current on every path of the redirect closure")
+    else:
+        run.fail(rid, "trap-redirect/pops", rb.loc(), "the closure the trap handler redirects to does not pop the faulting coroutine's suspender: the body is abandoned (not unwound), so nothing else will")
